@@ -250,7 +250,7 @@ def check_decoding(ctx):
     ctx.hit("decoding-streams")
 
 
-def check(ctx):
+def _check(ctx):
     rng = ctx.rng
     lines, pending = [], []
     for cfg, data, name in corpus_cases():
@@ -295,7 +295,7 @@ def flush_model(ctx, lines, pending):
     del lines[:]; del pending[:]
 
 
-def replay(ctx, case):
+def _replay(ctx, case):
     if case.get("kind") == "z":
         data = unhx(case["stream"]); segs, pos = [], 0
         for n in case["cuts"]:
@@ -315,3 +315,17 @@ def replay(ctx, case):
         canon, o = H.run_impl(cfg, s, case.get("eof", False))
         res.append((s, case.get("eof", False), o))
     direct_oracle(ctx, cfg, data, "replay", res)
+
+
+def check(ctx):
+    try:
+        _check(ctx)
+    finally:
+        H.hang_report(ctx)     # inputs on which the parser did not return
+
+
+def replay(ctx, case):
+    try:
+        _replay(ctx, case)
+    finally:
+        H.hang_report(ctx)
